@@ -146,7 +146,7 @@ def _do_op_effect(I, env):
 c.effect(_do_op_effect)
 
 # ---- the function under verification (also used modularly for its recursive call)
-c = contract(EP, 'ExpressionParser._expression', serves=['C02'], modular=True, uses=('precedence',))
+c = contract(EP, 'ExpressionParser._expression', serves=['C02', 'C06'], modular=True, uses=('precedence',))
 c.returns('bool')
 def _setup(b, case):
     ep = ep_obj(b)
@@ -166,11 +166,11 @@ c.loop(0, ['same_below(G(), old(G()), 1)',
            'pos() >= old(pos())',
            '(g_top(G()) == g_top(old(G())) and pos() == old(pos())) or (min_prec <= g_top(G()) <= 7 and pos() > old(pos()))',
            ENTER + ' ==> left_ok(g_top(G()), cur())'],
-       modifies=['ghost:pos', 'ghost:G'], havoc_kinds={})
+       modifies=['ghost:pos', 'ghost:G'], havoc_kinds={}, progress='pos()')
 INNER = '((B(cur()) and P(cur()) > P(op)) or (R(cur()) and P(cur()) == P(op)))'
 c.loop(1, ['same_below(G(), at_entry(G()), 1)', 'right_ok(g_top(G()), op)', INNER + ' ==> left_ok(g_top(G()), cur())',
            'pos() >= at_entry(pos())'],
-       modifies=['ghost:pos', 'ghost:G'], havoc_kinds={})
+       modifies=['ghost:pos', 'ghost:G'], havoc_kinds={}, progress='pos()')
 
 
 # ---- entry-level witness search for a failed grouping obligation: all operator chains of length 2 and 3
@@ -240,7 +240,7 @@ for _c in spec.REGISTRY:
 
 
 # ---- the four table facts, for EVERY token content and token type, from the real Token code
-c = contract('bardolph/parser/token.py', 'token_facts', serves=['C02'], name='lemma:Token table facts (all contents)', src='''
+c = contract('bardolph/parser/token.py', 'token_facts', serves=['C02', 'C06'], name='lemma:Token table facts (all contents)', src='''
 def token_facts(tok):
     return (tok.is_binop, tok.prec, tok.assoc is Assoc.RIGHT)
 ''')
